@@ -161,7 +161,7 @@ class Step(t.NamedTuple):
 def gen_step(model, rels: list[Relation], rng: random.Random, weights: dict[str, int] | None = None) -> Step:
     """Pick one operation. `run` performs it on the implementation (may raise)."""
     w = {"create": 4, "delitem": 3, "insert": 3, "setitem": 1, "append": 2, "remove": 2, "setattr": 2, "clear": 1,
-         "create_clash": 1, "create_nested": 2, "delete_referenced": 2, "role_set": 2}
+         "create_clash": 1, "create_nested": 2, "delete_referenced": 2, "role_set": 2, "move_over_placeholder": 2}
     if weights:
         w.update(weights)
     for _ in range(50):
@@ -216,6 +216,46 @@ def gen_step(model, rels: list[Relation], rng: random.Random, weights: dict[str,
                 kw["no_such_attribute_xyz"] = 1
             return Step("create_nested", rel, {"kw": {"name": "outer", attr: f"NewObject({hint})"}, "uuid": inner, "bad": fail},
                         lambda lst=lst, kw=kw: lst.create(**kw))
+        if op == "move_over_placeholder":
+            # fragmented layouts only: move an element that has a fragment placeholder somewhere below it
+            from capellambse.model import _obj as O
+            phs = [e for tr in model._loader.trees.values() if tr.fragment_type.name == "SEMANTIC"
+                   for e in tr.root.iter() if isinstance(e.tag, str) and e.get("href") is not None and e.get("id") is None]
+            if not phs:
+                continue
+            ph = rng.choice(phs)
+            ancs = [a for a in ph.iterancestors() if a.get("id") and a.getparent() is not None and a.getparent().getparent() is not None]
+            if not ancs:
+                continue
+            a = rng.choice(ancs[:3])
+            try:
+                obj = O.ModelElement.from_model(model, a)
+                par = obj.parent
+            except Exception:
+                continue
+            src_rel = None
+            for r in discover_for(model, par):
+                if r.contain:
+                    try:
+                        if obj in r.get():
+                            src_rel = r
+                            break
+                    except Exception:
+                        continue
+            if src_rel is None:
+                continue
+            inside = {id(x) for x in a.iter()}
+            dests = [r for r in rels if r.acc is src_rel.acc and id(r.owner._element) not in inside and r.owner is not par]
+            if not dests:
+                continue
+            d = rng.choice(dests)
+            try:
+                dl = d.get()
+            except Exception:
+                continue
+            i = rng.randrange(0, len(dl) + 1)
+            return Step("insert", d, {"i": i, "uuid": getattr(obj, "uuid", None), "over_placeholder": True},
+                        lambda dl=dl, i=i, obj=obj: dl.insert(i, obj))
         if op == "role_set":
             # (re)assign a single-valued role attribute with a NewObject, possibly of another class than the current one
             cands = [r for r in rels if r.contain and nested_slots(r)]
